@@ -147,7 +147,7 @@ func (c07) Gen(seed int64, tier string, emit func(any)) {
 	g := &c07Gen{r}
 	n := 700
 	if tier == "thorough" {
-		n = 20000
+		n = 8000
 	}
 	for i := 0; i < n; i++ {
 		ts := g.chain(r.Intn(4), 2)
